@@ -801,6 +801,9 @@ static ssize_t send_impl(int fd, const void *buf, size_t len, int flags) {
     yield_point("send");
     FdEnt *e = K->ent(fd);
     if (!e) KERR(C_SEND, EBADF);
+    // unwinding at the end of a run: connections are torn down so that library-internal wait loops
+    // (e.g. the uninterruptible flush wait of a blocking send) come to an end
+    if (G->unwinding) KERR(C_SEND, ECONNRESET);
     Fault f;
     bool hit = fault_hit("send", f, fd);
     size_t ri = K->record_calls ? K->callrec.size() - 1 : 0;
@@ -875,6 +878,7 @@ static ssize_t send_impl(int fd, const void *buf, size_t len, int flags) {
         if (hit && f.kind == "errno") { G->logf("send(%d,%zu) = %s [fault]", fd, len, strerror((int)f.arg)); KERR(C_SEND, (int)f.arg); }
         if (s->peer_closed || !p || p->closed) { G->logf("send(%d,%zu) = EPIPE", fd, len); KERR(C_SEND, EPIPE); }
         if (len > 212992 - 32) KERR(C_SEND, EMSGSIZE);
+        if (!s->nonblock) maysleep_check("send() on a blocking descriptor");
         if (K->p_eagain_send > 0 && s->nonblock && G->r_fault.chance(K->p_eagain_send)) { G->count("fault.eagain_send"); G->kmut++; KERR(C_SEND, EAGAIN); }
         auto full = [p] { return p->rq.size() >= p->max_msgs || p->rq_bytes >= p->max_bytes; };
         if (full()) {
@@ -910,6 +914,7 @@ ssize_t recv(int fd, void *buf, size_t len, int flags) {
     yield_point("recv");
     FdEnt *e = K->ent(fd);
     if (!e) KERR(C_RECV, EBADF);
+    if (G->unwinding) KERR(C_RECV, ECONNRESET);
     Fault f;
     bool hit = fault_hit("recv", f, fd);
     if (auto s = std::dynamic_pointer_cast<TcpSock>(e->f)) {
@@ -1142,7 +1147,15 @@ int poll(struct pollfd *fds, nfds_t n, int timeout_ms) {
     Task *t = cur();
     uint64_t sig = 1469598103934665603ULL;
     for (nfds_t i = 0; i < n; i++) sig = (sig ^ (uint64_t)(fds[i].fd * 131 + fds[i].events)) * 1099511628211ULL;
-    if (r && timeout_ms != 0 && t->poll_kmut == G->kmut && t->poll_sig == sig && t->steps > t->steps_at_poll + 1 && !G->stopping) {
+    // (a few identical rounds are let through: the library may count wake-ups internally, e.g. before it
+    //  serves its control interface)
+    if (timeout_ms == 0) {   // a readiness probe (the library's own ut_is_readable): no part of the wait bookkeeping
+        G->logf("poll(fd %d, tmo 0) = %d", n ? fds[0].fd : -1, r);
+        G->trace(C_POLL, r);
+        return r;
+    }
+    if (r && t->poll_kmut == G->kmut && t->poll_sig == sig) t->same_polls++; else t->same_polls = 0;
+    if (r && timeout_ms != 0 && t->poll_kmut == G->kmut && t->poll_sig == sig && t->steps > t->steps_at_poll + 1 && !G->stopping && t->same_polls >= 12) {
         // Spin compression: the task polled the same descriptors, found them ready, went round its loop
         // without changing anything in the kernel, and finds them ready again. The system is
         // deterministic, so it would repeat this until something else changes: park it until then.
